@@ -7,12 +7,15 @@ import json, os, re, shutil, subprocess, sys, time
 
 V = os.path.dirname(os.path.dirname(os.path.abspath(__file__)))
 REPO = "/repo"
-SCRATCH = "/tmp/seedcheck"
+SCRATCH = os.environ.get("SEED_SCRATCH", "/tmp/seedcheck")
 ENV = dict(os.environ, CARGO_NET_OFFLINE="true")
 
 
+EXTRA_ENV = {}
+
+
 def sh(cmd, cwd=None, timeout=3600, inp=None):
-    p = subprocess.run(cmd, cwd=cwd, env=ENV, input=inp, stdout=subprocess.PIPE, stderr=subprocess.STDOUT, text=True, timeout=timeout)
+    p = subprocess.run(cmd, cwd=cwd, env=dict(ENV, **EXTRA_ENV), input=inp, stdout=subprocess.PIPE, stderr=subprocess.STDOUT, text=True, timeout=timeout)
     return p.returncode, p.stdout
 
 
@@ -29,6 +32,9 @@ def confirm(src):
     ensure_scratch()
     readme = open(os.path.join(src, "README.txt")).read() if os.path.exists(os.path.join(src, "README.txt")) else ""
     demo_src = open(os.path.join(src, "demo.rs")).read()
+    EXTRA_ENV.clear()
+    if "renet_verif" in readme or "renet_verif" in demo_src or "::verif::" in demo_src:
+        EXTRA_ENV["RUSTFLAGS"] = "--cfg renet_verif"   # the demonstration uses the cfg-guarded re-exports
     m = re.search(r"(renet|renetcode|renet_netcode)/tests/(seed_demo_?\w*)\.rs", readme)
     crate, name = (m.group(1), m.group(2)) if m else (("renetcode" if "renetcode::" in demo_src or "use renetcode" in demo_src else "renet"), "seed_demo")
     demo_path = os.path.join(SCRATCH, crate, "tests", name + ".rs")
@@ -113,14 +119,22 @@ def main():
         with open(os.path.join(dst, "README.txt"), "w") as f:
             f.write(readme)
         meta["needs"] = re.sub(r"\s+", " ", readme)[:1500]
+        if "--confirm-only" in sys.argv:
+            if old_meta.get("checks"):
+                meta["checks"] = old_meta["checks"]
+                meta["caught_by"] = old_meta.get("caught_by", [])
+            json.dump(meta, open(os.path.join(dst, "meta.json"), "w"), indent=1)
+            continue
         patch_text = open(os.path.join(src, "patch.diff")).read()
-        renet_side = ["C01", "C02", "C03", "C06", "C08", "C09", "C11", "C12", "C13", "C14", "C15", "C16", "C20"]
-        netcode_side = ["C04", "C05", "C07", "C10", "C13", "C16", "C17", "C18", "C19", "C20"]
+        renet_side = ["C01", "C02", "C03", "C06", "C08", "C09", "C11", "C12", "C13", "C14", "C15", "C16"]
+        netcode_side = ["C04", "C05", "C07", "C10", "C13", "C16", "C17", "C18", "C19"]
         touched = []
         if "renet/src" in patch_text:
             touched += renet_side
         if "renetcode/src" in patch_text or "renet_netcode/src" in patch_text:
             touched += netcode_side
+        if "renet_netcode/src" in patch_text or prop == "C20":
+            touched += ["C20"]
         props = all_props or [p for p in sorted(set(touched + [prop])) if p in PROPS]
         meta["checks"] = run_checks(os.path.join(dst, "patch.diff"), props)
         caught = [p for p, r in meta["checks"].items() if isinstance(r, dict) and r["rc"] != 0]
@@ -128,7 +142,8 @@ def main():
         meta["ran"] = "tools/seed_eval.py: git apply in a scratch worktree, cargo test of the three crates, the demonstration with and without the change; then git -C /repo apply, ./check <id> --tier quick for every claimed property, git -C /repo checkout -- ."
         json.dump(meta, open(os.path.join(dst, "meta.json"), "w"), indent=1)
         print("   caught by:", caught, flush=True)
-    sh([os.path.join(V, "check"), "--setup"], cwd=V)
+    if "--confirm-only" not in sys.argv:
+        sh([os.path.join(V, "check"), "--setup"], cwd=V)
 
 
 if __name__ == "__main__":
